@@ -62,7 +62,7 @@ func init() {
 				kind string
 				n, m int
 			}
-			dumps := []dcfg{{"bind", 1, 0}, {"bind", 2, 0}, {"macro", 1, 1}, {"var", 0, 1}, {"var", 0, 2}}
+			dumps := []dcfg{{"bind", 1, 0}, {"bind", 2, 0}, {"macro", 1, 1}, {"var", 0, 1}, {"var", 0, 2}, {"defaults", 0, 0}}
 			if tier == "thorough" {
 				dumps = append(dumps, dcfg{"macro", 1, 2}, dcfg{"macro", 2, 1}, dcfg{"var", 0, 3})
 			}
@@ -77,7 +77,7 @@ func init() {
 		Assumptions: []string{
 			"runes are Unicode scalar values; r <= 0xFF or unicode.IsPrint(r) (the property's stated domain)",
 			"unicode.IsPrint/ToUpper are exact range formulas generated from the running toolchain's tables",
-			"dump jobs (ZZ_C19_Dump): the emacs table is replaced by {symbolic sequence -> forward-char or -> macro with a symbolic body, C-g -> the dump command, ESC 1 -> digit-argument}; ESC 1 C-g is typed in a real Readline call; the lines of the captured terminal output that start with a quote (or with 'set ') are parsed by inputrc.ParseBytes into a fresh Config (variables: into the running Config after changing the three values) and the binding / the values of one boolean, one integer (-1..12) and one string variable must be the original ones",
+			"dump jobs (ZZ_C19_Dump): the emacs table is replaced by {symbolic sequence -> forward-char or -> macro with a symbolic body, C-g -> the dump command, ESC 1 -> digit-argument}; ESC 1 C-g is typed in a real Readline call; the lines of the captured terminal output that start with a quote (or with 'set ') are parsed by inputrc.ParseBytes into a fresh Config (variables: into the running Config after changing the three values) and the binding / the values of one boolean, one integer (-1..120) and one string variable must be the original ones",
 			"the symbolic sequence does not start with the keys that run the dump (C-g, ESC 1 / M-1); the string variable's value is printable ASCII that a set directive parses to itself (configurations reachable by parsing)",
 		},
 		Stubs:  append([]string{"fmt.Sprintf modelled (symbolic %x digits)", "strings.Join/unicode.* models", "dump jobs: tty ioctls, stdin = zzverif.Script, stdout captured as text"}, paintStubs...),
